@@ -13,7 +13,7 @@ import sys
 # pin BLAS threads before numpy is imported anywhere: shards are processes, not threads
 for _v in ("OMP_NUM_THREADS", "OPENBLAS_NUM_THREADS", "MKL_NUM_THREADS", "NUMEXPR_NUM_THREADS", "RAYON_NUM_THREADS"):
     os.environ.setdefault(_v, "1")
-if os.environ.get("PYTHONHASHSEED") != "0":
+if __name__ == "__main__" and os.environ.get("PYTHONHASHSEED") != "0":
     os.environ["PYTHONHASHSEED"] = "0"
     os.execv(sys.executable, [sys.executable, "-m", "tqv.run"] + sys.argv[1:])
 
@@ -285,6 +285,38 @@ def run_unit(pid, subname, tier, seed, shard, nshards, n_cases, enabled_known, o
     Path(out_path).write_text(canon(res))
 
 
+def run_fuzz_unit(pid, subname, seed, runs, out_path, wall):
+    """thorough tier: coverage-guided campaign (tqv.fuzz) for one sub-check, result converted to a unit record"""
+    t0 = time.time()
+    res = {"sub": subname, "shard": "fuzz", "evaluations": 0, "nontrivial": {}, "nt_hashes": [], "inconclusive": {}, "known_hits": {}, "samples": [], "failure": None, "harness_error": None, "wall": 0.0}
+    stats_path = out_path + ".fuzzstats"
+    env = dict(os.environ, PYTHONPATH=str(ROOT / ".deps") + os.pathsep + os.environ.get("PYTHONPATH", ""))
+    try:
+        subprocess.run([sys.executable, "-m", "tqv.fuzz", pid, subname, "--runs", str(runs), "--seed", str(seed), "--out", stats_path, "--no-save"], cwd=str(ROOT), env=env, capture_output=True, text=True, timeout=wall)
+    except subprocess.TimeoutExpired:
+        res["inconclusive"]["fuzz_wall_limit"] = 1
+    if os.path.exists(stats_path):
+        st = json.loads(Path(stats_path).read_text())
+        if st.get("skipped"):
+            res["inconclusive"]["fuzz_skipped_no_atheris"] = 1
+        else:
+            res["evaluations"] = st["decoded"]
+            res["nontrivial"] = {"fuzz(coverage-guided)": st["nontrivial"]}
+            res["nt_hashes"] = st.get("nt_hashes", [])
+            res["inconclusive"].update({"fuzz_inconclusive": st["inconclusive"]} if st["inconclusive"] else {})
+            res["known_hits"] = {"fuzz": st["known_hits"]} if st["known_hits"] else {}
+            res["samples"] = [dict(s_, case=_trim(s_["case"])) for s_ in st.get("samples", [])]
+            if st["violations"]:
+                v = st["violations"][0]
+                res["failure"] = {"case": v["case"], "message": v["message"], "signature": v["signature"]}
+    else:
+        res["inconclusive"]["fuzz_no_statistics"] = 1
+    res["wall"] = time.time() - t0
+    from tqv.core import canon
+
+    Path(out_path).write_text(canon(res))
+
+
 def _trim(case, limit=1500):
     """Keep evidence samples readable: long lists are abbreviated (the replay files keep full cases)."""
     s = json.dumps(case)
@@ -435,11 +467,17 @@ def main():
             per = -(-total // k)
             for s in range(k):
                 units.append((sub, s, k, per))
+    fuzz_units = []
+    if args.tier == "thorough":
+        for sub in mod.SUBCHECKS:
+            if sub.fuzz and (not only or sub.name in only):
+                fuzz_units.append(sub)
     tmp = Path(tempfile.mkdtemp(prefix=f"tqv_{pid}_"))
     ctx = mp.get_context("fork")
     pending = list(enumerate(units))
     # longest first
     pending.sort(key=lambda iu: -(iu[1][3] * (1 + 50 * bool(iu[1][0].case_timeout))))
+    pending = [(10_000 + j, (sub, "fuzz", 1, int(sub.fuzz * args.scale) or 1)) for j, sub in enumerate(fuzz_units)] + pending
     running = {}
     results = []
     killed = []
@@ -448,12 +486,15 @@ def main():
             while pending and len(running) < PROCS:
                 i, (sub, s, k, per) = pending.pop(0)
                 outp = tmp / f"u{i}.json"
-                pr = ctx.Process(
-                    target=run_unit,
-                    args=(pid, sub.name, args.tier, seed, s, k, per, enabled_known, str(outp)),
-                )
-                pr.start()
                 limit = sub.wall_limit or WALL_LIMIT[args.tier]
+                if s == "fuzz":
+                    pr = ctx.Process(target=run_fuzz_unit, args=(pid, sub.name, seed, per, str(outp), limit - 30))
+                else:
+                    pr = ctx.Process(
+                        target=run_unit,
+                        args=(pid, sub.name, args.tier, seed, s, k, per, enabled_known, str(outp)),
+                    )
+                pr.start()
                 running[i] = (pr, outp, time.time(), limit, sub.name, s)
             time.sleep(0.05)
             for i in list(running):
